@@ -26,4 +26,4 @@ CHECK = {'level': 'exploration',
                  'Update does not refresh the stored append path (observed, reported in notes/C11.md as outside the statement): no append, '
                  'append-path or right-witness assertion after an Update'],
  'quick': [{'pkg': 'c11', 'checks': 500, 'timeout': 600}],
- 'thorough': [{'pkg': 'c11', 'checks': 4000, 'shards': 16, 'timeout': 2400}]}
+ 'thorough': [{'pkg': 'c11', 'checks': 3000, 'shards': 16, 'timeout': 2400}]}
